@@ -73,6 +73,9 @@ def same_runs(a, b):
 def check(ctx, case):
     ctx.count()
     ctx.label("shape:" + case.shape)
+    names = [f.name for f in case.prog.funcs]
+    if len(set(names)) != len(names):
+        ctx.label("overload-set-split-over-modules")
     single = adapter.compile_src(case.single_source())
     if not single.ok:
         ctx.discard("single-module-program-not-accepted:" + single.stage)
@@ -201,5 +204,5 @@ def _check_in_dir(ctx, case, ref, ref_prog):
 
 def run(R):
     R.hyp("partitions", genmod.modules_case(), check, examples=R.pick(40, 800), shrink="hyp")
-    for l in ("root-only-linked", "shape:diamond", "shape:chain3", "import-not-first", "duplicate-definition-checked"):
+    for l in ("root-only-linked", "overload-set-split-over-modules", "shape:diamond", "shape:chain3", "import-not-first", "duplicate-definition-checked"):
         R.require(l)
